@@ -586,6 +586,12 @@ def node_kmer_iter_tables(F, rep, rule="C18.1"):
     if not {"kmer_id", "kmer", "num_kmers", "node_seq_slice"} <= set(names):
         rep.inconclusive(rule, "NodeKmerIter/fields", "role discovery: the private fields of NodeKmerIter are %s (expected kmer_id, kmer, num_kmers, node_seq_slice)" % names)
         return
+    ftys = {f["name"]: f["ty"] for f in F.adts[NKI]["variants"][0]["fields"]}
+    extra = [n for n in names if n not in ("kmer_id", "kmer", "num_kmers", "node_seq_slice") and "PhantomData" not in ftys.get(n, "")]
+    if ftys.get("kmer_id") != "usize" or ftys.get("num_kmers") != "usize" or extra:
+        rep.inconclusive(rule, "NodeKmerIter/fields", "role discovery: the affine table models two usize counters (kmer_id, num_kmers); the iterator now has %s — "
+                         "the end-to-end lemma decides the contract without this table" % {n: ftys[n] for n in names if "PhantomData" not in ftys[n]})
+        return
     ATOMS = ("c", "N", "m", "K")
 
     def setup(h):
@@ -812,6 +818,7 @@ VIEW_GET = "<dna_string::DnaStringSlice<'a> as Mer>::get"
 
 class ViewOracles(Oracles):
     """DnaStringSlice methods must read bases through the view (get / get_kmer), never the backing string directly"""
+    interpret_fmt = True
 
     def __init__(self, script=()):
         Oracles.__init__(self, script)
